@@ -31,22 +31,24 @@ type fTok struct {
 }
 
 type fmtSide struct {
-	W        *World
-	Decl     *ast.FuncDecl
-	Writer   bool
-	Sites    []token.Pos                   // call sites (in Decl) of inlined package functions
-	RecvName string                        // receiver identifier (idx / ix)
-	IOParam  types.Object                  // the io.Writer / io.Reader parameter
-	Helper   types.Object                  // local closure wrapping binary.Write / binary.Read
-	HelperFn *ast.FuncLit                  //
-	Makes    map[types.Object]string       // reader: buf -> length expression of make([]byte, n)
-	Defs     map[types.Object]ast.Expr     // x := expr (single definition)
-	Closures map[types.Object]*ast.FuncLit // local closures other than the codec helper (inlined at their call sites)
-	Roots    []ast.Node                    // bodies that belong to this side (the declaration and every inlined function)
-	depth    int
-	Toks     []*fTok
-	Calls    []*ast.CallExpr // every stream call (for FMT4 / FMT6)
-	Problems []string
+	W           *World
+	Decl        *ast.FuncDecl
+	Writer      bool
+	Sites       []token.Pos                   // call sites (in Decl) of inlined package functions
+	MakesByExpr map[string]string             // printed lhs of `lhs = make(T, n)` -> n
+	RecvName    string                        // receiver identifier (idx / ix)
+	IOParam     types.Object                  // the io.Writer / io.Reader parameter
+	IOAlias     map[types.Object]bool         // locals that alias it
+	Helper      types.Object                  // local closure wrapping binary.Write / binary.Read
+	HelperFn    *ast.FuncLit                  //
+	Makes       map[types.Object]string       // reader: buf -> length expression of make([]byte, n)
+	Defs        map[types.Object]ast.Expr     // x := expr (single definition)
+	Closures    map[types.Object]*ast.FuncLit // local closures other than the codec helper (inlined at their call sites)
+	Roots       []ast.Node                    // bodies that belong to this side (the declaration and every inlined function)
+	depth       int
+	Toks        []*fTok
+	Calls       []*ast.CallExpr // every stream call (for FMT4 / FMT6)
+	Problems    []string
 }
 
 func exprStr(e ast.Expr) string { return types.ExprString(e) }
@@ -114,6 +116,9 @@ func extractFmt(w *World, decl *ast.FuncDecl, writer bool) *fmtSide {
 			}
 		}
 	}
+	if s.IOParam != nil {
+		s.IOAlias = ioAliases(info, decl.Body, s.IOParam)
+	}
 	// helper closure and make() lengths
 	ast.Inspect(decl.Body, func(n ast.Node) bool {
 		as, ok := n.(*ast.AssignStmt)
@@ -158,7 +163,32 @@ func extractFmt(w *World, decl *ast.FuncDecl, writer bool) *fmtSide {
 		}
 		return true
 	})
+	// x[i] = make([]T, n) and x := make([]T, n), by printed left-hand side (for bounds that arrive through a helper's parameter)
+	s.MakesByExpr = map[string]string{}
+	ast.Inspect(decl.Body, func(n ast.Node) bool {
+		as, ok := n.(*ast.AssignStmt)
+		if !ok || len(as.Lhs) != 1 || len(as.Rhs) != 1 {
+			return true
+		}
+		if call, ok := as.Rhs[0].(*ast.CallExpr); ok {
+			if fn, ok := call.Fun.(*ast.Ident); ok && fn.Name == "make" && len(call.Args) >= 2 {
+				s.MakesByExpr[exprStr(as.Lhs[0])] = exprStr(stripConv(info, call.Args[1]))
+			}
+		}
+		return true
+	})
+	if !writer {
+		substResolve = func(v string) (string, bool) {
+			if l, ok := s.MakesByExpr[v]; ok {
+				return s.resolveBoundStr(l), true
+			}
+			return "", false
+		}
+	} else {
+		substResolve = nil
+	}
 	s.Toks = s.block(decl.Body.List)
+	substResolve = nil
 	return s
 }
 
@@ -286,7 +316,15 @@ func (s *fmtSide) stmt(st ast.Stmt) []*fTok {
 			out = append(out, &fTok{Kind: "COND", Cond: exprStr(x.Cond), Body: body, Else: els, Pos: x.Pos()})
 		}
 		return out
+	case *ast.LabeledStmt:
+		return s.stmt(x.Stmt)
 	case *ast.ForStmt:
+		// `L: for { …; break L }` written by the statement inliner (inline2.go) is a block, not a loop
+		if x.Init == nil && x.Cond == nil && x.Post == nil && len(x.Body.List) > 0 {
+			if br, ok := x.Body.List[len(x.Body.List)-1].(*ast.BranchStmt); ok && br.Tok == token.BREAK && br.Label != nil && strings.HasPrefix(br.Label.Name, "L_h") {
+				return s.block(x.Body.List)
+			}
+		}
 		var out []*fTok
 		if x.Init != nil {
 			out = append(out, s.stmt(x.Init)...)
@@ -334,7 +372,47 @@ func (s *fmtSide) stmt(st ast.Stmt) []*fTok {
 			b = s.rangeBound(x.X)
 		}
 		return []*fTok{{Kind: "LOOP", Len: b, Body: body, Pos: x.Pos(), Whole: true}}
-	case *ast.SwitchStmt, *ast.TypeSwitchStmt, *ast.SelectStmt:
+	case *ast.SwitchStmt, *ast.TypeSwitchStmt:
+		// a switch with stream operations in exactly one clause is a conditional section (comma-ok assertion written as
+		// a type switch, `switch { case cond: … }`)
+		var body *ast.BlockStmt
+		tag := "switch"
+		switch sw := x.(type) {
+		case *ast.SwitchStmt:
+			body = sw.Body
+			if sw.Tag != nil {
+				tag += " " + exprStr(sw.Tag)
+			}
+		case *ast.TypeSwitchStmt:
+			body = sw.Body
+			tag = "typeswitch"
+		}
+		var withOps [][]*fTok
+		var conds []string
+		for _, cl := range body.List {
+			cc, ok := cl.(*ast.CaseClause)
+			if !ok {
+				continue
+			}
+			toks := s.block(cc.Body)
+			if len(toks) > 0 {
+				withOps = append(withOps, toks)
+				var cs []string
+				for _, e := range cc.List {
+					cs = append(cs, exprStr(e))
+				}
+				conds = append(conds, tag+" case "+strings.Join(cs, ","))
+			}
+		}
+		switch len(withOps) {
+		case 0:
+			return nil
+		case 1:
+			return []*fTok{{Kind: "COND", Cond: conds[0], Body: withOps[0], Pos: st.Pos()}}
+		}
+		s.Problems = append(s.Problems, "stream operations in several clauses of the switch statement at "+s.W.Pos(st.Pos())+" are not modelled")
+		return nil
+	case *ast.SelectStmt:
 		var inner []*fTok
 		ast.Inspect(st, func(n ast.Node) bool {
 			if c, ok := n.(*ast.CallExpr); ok {
@@ -398,7 +476,65 @@ func (s *fmtSide) expr(e ast.Expr) []*fTok {
 
 func (s *fmtSide) isIO(e ast.Expr) bool {
 	id, ok := e.(*ast.Ident)
-	return ok && s.IOParam != nil && s.W.Info.Uses[id] == s.IOParam
+	if !ok || s.IOParam == nil {
+		return false
+	}
+	obj := s.W.Info.Uses[id]
+	return obj == s.IOParam || (obj != nil && s.IOAlias[obj])
+}
+
+// ioAliases: local variables of the stream's interface type initialised from the stream parameter (or another alias):
+// `var rd io.Reader = r`, `rd := r`. They denote the same stream.
+func ioAliases(info *types.Info, body ast.Node, param types.Object) map[types.Object]bool {
+	out := map[types.Object]bool{}
+	isStream := func(e ast.Expr) bool {
+		id, ok := ast.Unparen(e).(*ast.Ident)
+		if !ok {
+			return false
+		}
+		obj := info.Uses[id]
+		return obj != nil && (obj == param || out[obj])
+	}
+	for changed := true; changed; {
+		changed = false
+		ast.Inspect(body, func(n ast.Node) bool {
+			switch x := n.(type) {
+			case *ast.ValueSpec:
+				for i, nm := range x.Names {
+					if i < len(x.Values) && isStream(x.Values[i]) {
+						if obj := info.Defs[nm]; obj != nil && !out[obj] {
+							out[obj] = true
+							changed = true
+						}
+					}
+				}
+			case *ast.AssignStmt:
+				if x.Tok == token.DEFINE && len(x.Lhs) == len(x.Rhs) {
+					for i, l := range x.Lhs {
+						if id, ok := l.(*ast.Ident); ok && isStream(x.Rhs[i]) {
+							if obj := info.Defs[id]; obj != nil && !out[obj] {
+								out[obj] = true
+								changed = true
+							}
+						}
+					}
+				}
+			}
+			return true
+		})
+	}
+	// an alias that is ever re-assigned is not a plain alias
+	ast.Inspect(body, func(n ast.Node) bool {
+		if as, ok := n.(*ast.AssignStmt); ok && as.Tok != token.DEFINE {
+			for _, l := range as.Lhs {
+				if id, ok := l.(*ast.Ident); ok {
+					delete(out, info.Uses[id])
+				}
+			}
+		}
+		return true
+	})
+	return out
 }
 
 func (s *fmtSide) call(c *ast.CallExpr) []*fTok {
@@ -479,6 +615,9 @@ func (s *fmtSide) call(c *ast.CallExpr) []*fTok {
 }
 
 // substParams rewrites token lengths / arguments that name a parameter of an inlined function to the argument expression.
+// substResolve, when set, maps a substituted bound that names a made slice to its length (set by the side being built).
+var substResolve func(string) (string, bool)
+
 func substParams(info *types.Info, toks []*fTok, params *ast.FieldList, args []ast.Expr) {
 	m := map[string]string{}  // parameter -> argument expression
 	ml := map[string]string{} // parameter -> length name of the argument (x[:] of an array is its constant length)
@@ -511,6 +650,11 @@ func substParams(info *types.Info, toks []*fTok, params *ast.FieldList, args []a
 					t.CountLen = t.Len
 				}
 				t.Len = v
+				if t.Kind == "LOOP" && substResolve != nil {
+					if l, ok := substResolve(v); ok {
+						t.Len = l
+					}
+				}
 			}
 			if v, ok := m[t.Arg]; ok {
 				t.Arg = v
@@ -553,7 +697,7 @@ func (s *fmtSide) inlineFunc(c *ast.CallExpr) []*fTok {
 	helperArg := -1
 	for i, a := range c.Args {
 		if id, ok := a.(*ast.Ident); ok {
-			if s.IOParam != nil && info.Uses[id] == s.IOParam {
+			if s.isIO(id) {
 				passes = i
 			}
 			if s.Helper != nil && info.Uses[id] == s.Helper {
@@ -579,6 +723,7 @@ func (s *fmtSide) inlineFunc(c *ast.CallExpr) []*fTok {
 		for _, n := range f.Names {
 			if i == passes {
 				sub.IOParam = info.Defs[n]
+				sub.IOAlias = ioAliases(info, decl.Body, sub.IOParam)
 			}
 			if i == helperArg {
 				sub.Helper = info.Defs[n]
